@@ -5,9 +5,12 @@
    explicit check with outcome [EncOverflow] / [DecOverflow] (a panic in the debug profile the
    harness runs), and the explicit `panic!("packet number too large to encode")` is [EncPanic].
    `x as u8/u16/u32` is `mod 2^k`.  `expected & !mask` is [Z.ldiff expected mask] and `|` is
-   [Z.lor] — kept as bit operations on purpose: `PacketNumber::encode` builds `U24(pn as u32)`,
-   i.e. a U24 whose payload is NOT reduced to 24 bits; the reduction only happens when the
-   number is written (`put_u8(x>>16); put_u16(x)`).  [wire] is that write/read round trip. *)
+   [Z.lor] — kept as bit operations on purpose: decode ORs the whole payload into the candidate,
+   so a U24 whose payload exceeds 24 bits (constructible through the public enum; before the
+   fix of F31 `PacketNumber::encode` itself returned `U24(pn as u32)`) decodes differently from
+   its wire form.  [wire] is the put_packet_number / take_pn_len round trip (`put_u8(x>>16);
+   put_u16(x)` drops the top byte of a U24).  Since the fix, encode returns
+   `U24(pn as u32 & 0x00ff_ffff)` and the in-memory value equals the wire value. *)
 From Coq Require Import List ZArith Bool.
 Import ListNotations.
 Local Open Scope Z_scope.
@@ -28,7 +31,7 @@ Definition encode (pn la : Z) : enc_res :=
       let range := Z.max (d * 2) (2^16 - 1) in
       if range <? 2^8 then EncOk (U8 (pn mod 2^8))
       else if range <? 2^16 then EncOk (U16 (pn mod 2^16))
-      else if range <? 2^24 then EncOk (U24 (pn mod 2^32))     (* `pn as u32`, not 24 bits *)
+      else if range <? 2^24 then EncOk (U24 ((pn mod 2^32) mod 2^24))   (* `pn as u32 & 0x00ff_ffff` (fix F31) *)
       else if range <? 2^32 then EncOk (U32 (pn mod 2^32))
       else EncPanic.
 
